@@ -367,12 +367,93 @@ fn shard(seed: u64, shard: u64, shards: u64, tier: Tier) -> Tally {
     t
 }
 
+/// The lower-level route (crate feature `unstable`): the authenticator's validate_signature with a caller-chosen tolerance.
+/// With 15 minutes it must behave exactly like the entry point (outcome and provider event log); with other tolerances
+/// the window is ± that tolerance, bounds inclusive, decided before any key lookup.
+#[cfg(feature = "unstable-api")]
+fn direct_route(seed: u64, shard: u64, n: u64) -> Tally {
+    let mut t = Tally::new();
+    for i in 0..n {
+        let mut r = Rng::keyed(seed, "C04", "direct", shard, i);
+        let mut cfg = crate::gen::gen_cfg(&mut r);
+        cfg.fold = false;
+        let carrier = if r.coin() {
+            Carrier::Header
+        } else {
+            Carrier::Query
+        };
+        let l = base_logical(&mut r, &cfg, carrier);
+        let tol: i64 = *r.pick(&[900i64, 900, 0, 1, 60, 86_400]);
+        let bound = tol as i128 * 1_000_000_000;
+        let sign: i128 = if r.coin() {
+            1
+        } else {
+            -1
+        };
+        let delta: i128 = match r.below(6) {
+            0 => sign * bound,
+            1 => sign * (bound + 1),
+            2 => sign * (bound - 1).max(0),
+            3 => sign * (bound + 1_000_000_000),
+            4 => sign * (bound / 2),
+            _ => sign * (bound + r.range(1, 3_600) as i128 * 1_000_000_000),
+        };
+        let mut sr = Rng::keyed(seed, "C04", "direct-spell", shard, i);
+        let mut sp = Speller {
+            r: &mut sr,
+            level: 0,
+        };
+        // make_case sets now = t + delta
+        let (case, _) = make_case(&l, &cfg, &mut sp, &Overrides::default(), delta);
+        let rec = crate::exec::execute_direct(&case, tol);
+        t.eval();
+        if matches!(rec.outcome, Outcome::NotBuilt(_)) {
+            continue;
+        }
+        if tol == 900 {
+            let entry = execute(&case);
+            if entry.outcome.digest() != rec.outcome.digest() || entry.events != rec.events {
+                t.violate(violation(
+                    "window",
+                    "direct-route-differs",
+                    format!("validate_signature with a 15-minute tolerance gives {} / {:?}; the entry point gives {} / {:?}", rec.outcome.brief(), rec.events, entry.outcome.brief(), entry.events),
+                    &case,
+                    None,
+                ));
+                continue;
+            }
+            t.count("direct_route_equals_entry_point");
+        }
+        let inside = delta.abs() <= bound;
+        let ok = rec.outcome.is_ok();
+        let refused_as_window = rec.outcome.err().map(|e| e.kind == crate::model::Kind::SignatureDoesNotMatch && (e.msg.contains("expired") || e.msg.contains("not yet current"))).unwrap_or(false);
+        if inside && !ok {
+            t.violate(violation("window", &format!("direct/tolerance-{}/inside-refused", tol), format!("tolerance {} s, now − t = {} ns (inside): {}", tol, delta, rec.outcome.brief()), &case, None));
+        } else if !inside && !(refused_as_window && rec.events.is_empty()) {
+            t.violate(violation("window", &format!("direct/tolerance-{}/outside", tol), format!("tolerance {} s, now − t = {} ns (outside): {} with provider events {:?}", tol, delta, rec.outcome.brief(), rec.events), &case, None));
+        } else {
+            t.count(&format!("direct_tolerance_{}/{}", tol, if inside { "inside" } else { "outside" }));
+            t.nontrivial(case.hash());
+        }
+    }
+    t
+}
+
+#[cfg(not(feature = "unstable-api"))]
+fn direct_route(_seed: u64, _shard: u64, _n: u64) -> Tally {
+    let mut t = Tally::new();
+    t.notes.push("direct authenticator route skipped (crate feature not available)".into());
+    t
+}
+
 pub fn run(tier: Tier) -> i32 {
     let mut ctx = Ctx::new("C04", tier);
     let pre = preflight();
     let seed = ctx.seed;
     let shards = 32u64;
     let mut tally = ctx.par(shards, |s| shard(seed, s, shards, tier));
+    let d = ctx.par(8, |s| direct_route(seed, s, tier.n(1500, 60_000)));
+    tally.merge(d);
     if let Err(e) = &pre {
         tally.inconclusive.push(e.clone());
     }
@@ -394,11 +475,21 @@ pub fn run(tier: Tier) -> i32 {
     ctx.gate("probes with a second date value on the other side of the window: effective value outside, refused", tally.get("decoy/effective-outside/expired") + tally.get("decoy/effective-outside/not-yet"), tier.n(3_000, 100_000));
     ctx.gate("probes with a second date value on the other side of the window: effective value inside", tally.get("decoy/effective-inside/inside"), tier.n(1_000, 50_000));
     ctx.gate("shards whose requests carry an X-Amz-Expires parameter / header", tally.get("with_x_amz_expires_parameter") + tally.get("with_x_amz_expires_header"), 16);
+    if cfg!(feature = "unstable-api") {
+        ctx.gate("direct route (validate_signature, 15 min) identical to the entry point in outcome and provider events", tally.get("direct_route_equals_entry_point"), tier.n(2_000, 80_000));
+        for tol in [0, 1, 60, 86_400] {
+            ctx.gate(
+                &format!("direct route with a tolerance of {} s: inside accepted, outside refused before key lookup", tol),
+                tally.get(&format!("direct_tolerance_{}/inside", tol)).min(tally.get(&format!("direct_tolerance_{}/outside", tol))),
+                tier.n(300, 10_000),
+            );
+        }
+    }
     ctx.exhaustive("whole-second offsets −1200…+1200 × 4×4 sub-second parts at the full-grid server instants", tier == Tier::Thorough);
     ctx.exhaustive("±2 s around both bounds × 4×4 sub-second parts at all 14 server instants, both carriers", true);
     let rep = Report {
         level: "exploration",
-        rule: "Grid of (request instant, server instant) pairs at nanosecond resolution: whole-second offsets in [−1200 s, +1200 s] × sub-second part ∈ {0, 1 ns, 0.5 s, 999 999 999 ns} on both sides, at server instants on day / month / year / leap-day boundaries and years 0002 / 9997; the six instants at and one nanosecond either side of both bounds for every server instant, each in many textual renderings (basic/extended, 15 UTC offsets incl. half/quarter hours, fraction lengths 0–12, ',' or '.'); both carriers; X-Amz-Date and Date headers; plus random (t, now) pairs at nanosecond resolution scattered around both bounds (exact, ±1 ns, ±200 ns, ±2 ms, ±2 s) and over the whole range, at random server instants of years 1906–8307, in random renderings; far-outside pairs (±1 h … ±5000 years, including the distances at which 32-bit seconds, 64-bit nanoseconds and 2^64 ns wrap, each ± the window); pairs with a second, contradicting date value (a Date header next to X-Amz-Date, a later X-Amz-Date parameter); all four option combinations; requests carrying an X-Amz-Expires parameter or header (an ordinary signed parameter here). Every request is validly signed, so 'inside ⇒ accepted' is observable. Oracle: integer nanosecond arithmetic (no chrono), provider event log must be empty outside the window. Distinct = distinct (t, now, text) triples that were decided in agreement with the oracle.".into(),
+        rule: "Grid of (request instant, server instant) pairs at nanosecond resolution: whole-second offsets in [−1200 s, +1200 s] × sub-second part ∈ {0, 1 ns, 0.5 s, 999 999 999 ns} on both sides, at server instants on day / month / year / leap-day boundaries and years 0002 / 9997; the six instants at and one nanosecond either side of both bounds for every server instant, each in many textual renderings (basic/extended, 15 UTC offsets incl. half/quarter hours, fraction lengths 0–12, ',' or '.'); both carriers; X-Amz-Date and Date headers; plus random (t, now) pairs at nanosecond resolution scattered around both bounds (exact, ±1 ns, ±200 ns, ±2 ms, ±2 s) and over the whole range, at random server instants of years 1906–8307, in random renderings; far-outside pairs (±1 h … ±5000 years, including the distances at which 32-bit seconds, 64-bit nanoseconds and 2^64 ns wrap, each ± the window); pairs with a second, contradicting date value (a Date header next to X-Amz-Date, a later X-Amz-Date parameter); all four option combinations; requests carrying an X-Amz-Expires parameter or header (an ordinary signed parameter here). Every request is validly signed, so 'inside ⇒ accepted' is observable. With the crate's `unstable` feature the authenticator's own validate_signature is driven as well: with 15 minutes it must equal the entry point in outcome and provider events, with tolerances of 0 s, 1 s, 60 s and one day the window must be ± that tolerance, inclusive, decided before key lookup. Oracle: integer nanosecond arithmetic (no chrono), provider event log must be empty outside the window. Distinct = distinct (t, now, text) triples that were decided in agreement with the oracle.".into(),
         assumptions: vec!["server years 0002–9997 (beyond that chrono's own range arithmetic applies and the properties are silent)".into()],
         extra: J::obj().set("calibrated_vectors", J::i(pre.unwrap_or(0) as i64)),
     };
